@@ -112,6 +112,11 @@ pub trait CheckDef: 'static {
     fn strategy(tier: Tier) -> BoxedStrategy<Self::Case>;
     /// Runs the case through interpreter + oracle. `trace` = print annotated trace (replay).
     fn run(case: &Self::Case, trace: bool) -> Outcome;
+    /// true for a check whose run also depends on an interleaving sampled by the operating system (real threads):
+    /// its oracle must be schedule-independent (a violation under any interleaving is a violation), but a failing
+    /// case need not fail again when re-run, so the first observation stands and shrinking only keeps candidates
+    /// that happen to fail again.
+    const SCHEDULE_SAMPLED: bool = false;
 }
 
 // ------------------------------------------------------------------------------------------
@@ -634,8 +639,9 @@ impl Ctx {
                                         }
                                         // shrink: counters are frozen from here on.
                                         let sig0 = signature.clone();
+                                        let detail0 = match &out.verdict { Verdict::Violation { detail, .. } => detail.clone(), _ => String::new() };
                                         let (shrunk, sig, detail) =
-                                            shrink::<C>(tree, &sig0, max_shrink);
+                                            shrink::<C>(tree, &sig0, &detail0, max_shrink);
                                         failure = Some((shrunk, case.clone(), sig, detail));
                                         break;
                                     }
@@ -688,7 +694,7 @@ impl Ctx {
                 let js = serde_json::to_value(&shrunk).unwrap();
                 let back: C::Case = serde_json::from_value(js).unwrap();
                 let again = run_guarded::<C>(&back, false);
-                if !again.is_violation() {
+                if !again.is_violation() && !C::SCHEDULE_SAMPLED {
                     self.engine_error(format!(
                         "non-reproducible failure in {}/{} (signature {sig}): {detail}",
                         self.id,
@@ -891,6 +897,7 @@ pub fn run_guarded<C: CheckDef>(case: &C::Case, trace: bool) -> Outcome {
 fn shrink<C: CheckDef>(
     mut tree: Box<dyn ValueTree<Value = C::Case>>,
     sig0: &str,
+    detail0: &str,
     max_iters: u32,
 ) -> (C::Case, String, String) {
     // classic proptest shrink loop, keeping only failures with the same signature
@@ -902,6 +909,10 @@ fn shrink<C: CheckDef>(
         _ => false,
     };
     if !same(&best_out) {
+        if C::SCHEDULE_SAMPLED {
+            // the interleaving that failed did not recur: the first observation stands, unshrunk
+            return (best, sig0.to_string(), detail0.to_string());
+        }
         // flaky?! report as is
         return (best, sig0.to_string(), "non-deterministic failure".into());
     }
